@@ -208,7 +208,7 @@ def _read_xml(rml_rule, references):
                         data_value.append(r.text)
             else:
                 attribute = attribute[1:]  # do not use the starting @ from the attribute
-                data_value.append(e.attrib[attribute])
+                data_value.append(e.get(attribute))  # a missing attribute is a NULL, as for the attributes of child elements
             data_record.append(data_value)
         data_records.append(data_record)
 
